@@ -18,7 +18,7 @@ func init() {
 		ID:    "C15",
 		Level: "fault_enumeration",
 		Rule: "all function bodies of <=4 statements over the full alphabet and of 5 over a reduced one (thorough: <=5 over the full alphabet) statements over {print, value, defer, guarded defer true/false, return, guarded return true/false, raise, " +
-			"failing call, call of a function with its own defers, deferred expression that raises} plus iterator bodies with yield, each run in 7 contexts (direct call, called from a body with its own defer, three nested levels with several defers, as a method, per element of a list chain whose literal has its own defer, inside a try step, iterator next); " +
+			"failing call, call of a function with its own defers, deferred expression that raises, defer/return whose guard expression raises, a list chain whose block fails with StopIterErr} plus iterator bodies with yield, each run in 7 contexts (direct call, called from a body with its own defer, three nested levels with several defers, as a method, per element of a list chain whose literal has its own defer, inside a try step, iterator next); " +
 			"stdout markers and outcome compared with a defer model; non-trivial = body contains a defer and an exit or a failing statement; distinct = distinct (body, context)",
 		Assumptions: []string{
 			"the value of a body whose last statement is a defer is a don't-care (only the trace is compared there)",
@@ -33,8 +33,8 @@ inner := {|| defer "id".p; "ip".p; 5}
 `
 
 // statement kinds
-var alphabet = []string{"P", "V", "D", "DT", "DF", "DN", "DZ", "DC", "R", "RT", "RF", "X", "CF", "CD", "DX"}
-var reduced = []string{"P", "D", "DN", "DZ", "R", "X", "CF", "DX"}
+var alphabet = []string{"P", "V", "D", "DT", "DF", "DN", "DZ", "DC", "R", "RT", "RF", "X", "CF", "CD", "DX", "DG", "RG", "CS"}
+var reduced = []string{"P", "D", "DN", "DZ", "R", "X", "CF", "DX", "DG", "CS"}
 var iterAlphabet = []string{"P", "D", "DF", "DN", "Y", "YT", "YN", "YF", "X", "DX"}
 
 type tcase struct {
@@ -72,6 +72,12 @@ func stmtSrc(kind string, k int) string {
 		return "fail()"
 	case "CD":
 		return "inner()"
+	case "DG": // the guard of a defer raises: the body ends there, nothing is registered
+		return fmt.Sprintf(`defer "d%d".p if fail()`, k)
+	case "RG": // the guard of a return raises
+		return fmt.Sprintf("return %d if fail()", 70+k)
+	case "CS": // a nested failure of the kind that ends iterations, inside the block of a list chain
+		return "[1, 2]@{|e| []._iter.next}"
 	case "DX":
 		return "defer fail()"
 	case "DC": // the deferred expression calls a function that has defers of its own
@@ -124,8 +130,11 @@ func model(stmts []string) outcome {
 		case "X":
 			errK, errM = "Err", fmt.Sprintf("x%d", k)
 			stopped = true
-		case "CF":
+		case "CF", "DG", "RG":
 			errK, errM = "ValueErr", "nested"
+			stopped = true
+		case "CS":
+			errK, errM = "StopIterErr", "iter stopped"
 			stopped = true
 		case "CD":
 			out.WriteString("ip\nid\n")
